@@ -1248,8 +1248,6 @@ impl Iterator for FileIterator<'_> {
             return None;
         }
 
-        // @todo: probably safe to hand out a reference instead of cloning, just a bit more painful
-        let file_entry = self.file_entries[self.count].clone();
         self.count += 1;
 
         let reader = payload::Reader::new(&mut self.archive, &self.file_entries);
@@ -1259,6 +1257,21 @@ impl Iterator for FileIterator<'_> {
                 if entry_reader.is_trailer() {
                     return None;
                 }
+
+                // Pair the archive entry with the metadata of the file it names - not with the
+                // n-th file of the header: archives may omit %ghost files or be ordered differently.
+                // @todo: probably safe to hand out a reference instead of cloning, just a bit more painful
+                let file_entry = match entry_reader.file_index(&self.file_entries) {
+                    Some(index) => self.file_entries[index].clone(),
+                    None => {
+                        // nothing sensible can follow: end the iteration after this error
+                        self.count = self.file_entries.len();
+                        return Some(Err(Error::Io(io::Error::new(
+                            io::ErrorKind::InvalidData,
+                            "archive entry does not belong to any file of the header",
+                        ))));
+                    }
+                };
 
                 let mut content = Vec::new();
 
